@@ -3402,7 +3402,7 @@ func (vm *Thread) opLessThanEqualFloat() {
 	right := vm.popGet()
 	left := vm.peek()
 
-	l := left.AsSmallInt()
+	l := left.AsFloat()
 	result, _ := l.LessThanEqualVal(right)
 	vm.replace(result)
 }
@@ -3426,7 +3426,7 @@ func (vm *Thread) opLessThanFloat() {
 	right := vm.popGet()
 	left := vm.peek()
 
-	l := left.AsSmallInt()
+	l := left.AsFloat()
 	result, _ := l.LessThanVal(right)
 	vm.replace(result)
 }
@@ -3746,7 +3746,7 @@ func (vm *Thread) opSubtractInt() {
 func (vm *Thread) opSubtractFloat() {
 	right := vm.popGet()
 	left := vm.peek()
-	l := left.AsSmallInt()
+	l := left.AsFloat()
 	result, _ := l.SubtractVal(right)
 	vm.replace(result)
 }
